@@ -4,8 +4,9 @@ import Zed.Model.Ty
 
   `aID == bID` of the Go code is modelled as equality of the underlying structural types
   (ids are canonical inside a context; primitive ids are the ids themselves).  When the ids are
-  equal only the *outermost* names are compared — the model keeps this, it is the reason
-  `cmpTy` is not a total order on all types (see Props/C05 `not_compareTypes_eq_iff`).
+  equal the chains of names are compared from the outside in (since /repo commit "CompareTypes
+  ordered distinct named types as equal"; before it only the outermost names were compared and
+  `cmpTy` was not a total order).
 -/
 namespace Zed
 
@@ -25,9 +26,11 @@ def cmpFieldNames : Fields → Fields → Ordering
   | .cons n _ r, .cons m _ s => (cmpBytes n m).then (cmpFieldNames r s)
   | _, _ => .eq
 
-/-- the `aID == bID` branch of CompareTypes -/
+/-- the `aID == bID` branch of CompareTypes: two named types are ordered by name and, on equal
+    names, by the types they name (which again share the underlying id); a named type is above
+    the type it names. -/
 def cmpRank : Ty → Ty → Ordering
-  | .named n _, .named m _ => cmpBytes n m
+  | .named n x, .named m y => (cmpBytes n m).then (cmpRank x y)
   | .named _ _, _ => .gt
   | _, .named _ _ => .lt
   | _, _ => .eq
@@ -69,30 +72,6 @@ end
 
 /-- `zed.CompareTypes` -/
 def cmpTy (a b : Ty) : Ordering := cmpCombine a b (cmpS a b.under)
-
-/-! ### the guard under which `cmpTy` is a total order
-
-  `nnn t`: no named type of `t` (at any depth) directly wraps another named type.  For such
-  types two named types with the same underlying type and the same outermost name are the
-  same type, which is what `CompareTypes` silently assumes. -/
-mutual
-def Ty.nnn : Ty → Bool
-  | .prim _ => true
-  | .record fs => fs.nnn
-  | .array t => t.nnn
-  | .set t => t.nnn
-  | .map k v => k.nnn && v.nnn
-  | .union ts => ts.nnn
-  | .enum _ => true
-  | .error t => t.nnn
-  | .named _ t => !t.isNamed && t.nnn
-def Fields.nnn : Fields → Bool
-  | .nil => true
-  | .cons _ t r => t.nnn && r.nnn
-def Tys.nnn : Tys → Bool
-  | .nil => true
-  | .cons t r => t.nnn && r.nnn
-end
 
 def Ordering.toInt : Ordering → Int
   | .lt => -1
